@@ -109,6 +109,13 @@ def coupled_constructs(ctx):
     out.append(("1HPX-asp25B-at-chain-start", C.join(cut), []))
     cutf = a + [C.TER] + [ln for ln in b if int(ln[22:26]) >= 25] + [C.TER]
     out.append(("asp-pair-asp25B-at-chain-start", C.join(cutf), []))
+    # the same under the optional settings of covalent coupling (shared determinants, penalised groups kept)
+    from . import c04
+    for tag in (("shared+keep", "ccc+shared+keep") if ctx.thorough() else ("shared+keep",)):
+        out.append((f"1HPX-asp25B-at-chain-start [{tag}]", C.join(cut), c04.opts_for(f"x [{tag}]")[1:], {"keeppen": 1}))
+        out.append((f"asp-pair-asp25B-at-chain-start [{tag}]", C.join(cutf), c04.opts_for(f"x [{tag}]")[1:], {"keeppen": 1}))
+    if ctx.thorough():
+        out.append(("4DFR [shared+keep]", C.test_pdb_text("4DFR"), c04.opts_for("x [shared+keep]")[1:], {"keeppen": 1}))
     # two adjacent copies of one ligand in one chain: distinct groups with the same printed label that interact
     ftj = [ln for ln in C.body(C.test_pdb_text("1FTJ-Chain-A")) if C.is_atom(ln) or ln.startswith("TER")]
     lig = [ln for ln in ftj if ln.startswith("HETATM") and ln[17:20] == "GLU"]
@@ -203,7 +210,7 @@ def run(ctx):
     old = NCCG.do_prot_stat
     try:
         NCCG.do_prot_stat = False
-        for (name, text, opts), ron in zip(cases, runs):
+        for (name, text, opts, *_x), ron in zip(cases, runs):
             if ron is None or ron.exc is not None:
                 continue
             roff = runner.run(text, ["-q"] + list(opts))
@@ -216,7 +223,7 @@ def run(ctx):
     # only the request to display alternative states may leave swapped interactions behind: any other reporting option
     # (logging verbosity) is still "analysis on, nothing disturbed"
     loud = [["--log-level", "DEBUG"], ["--log-level", "INFO"]] if ctx.thorough() else [["--log-level", "DEBUG"]]
-    for (name, text, opts), ron in zip(cases, runs):
+    for (name, text, opts, *_x), ron in zip(cases, runs):
         if ron is None or ron.exc is not None or "-d" in opts:
             continue
         if not any(g.non_covalently_coupled_groups for c_ in ron.mol.conformation_names for g in ron.mol.conformations[c_].groups):
